@@ -129,6 +129,25 @@ def name_keyed_dict_rule(fam, mod, rep, rid):
                 d = unparen(d)
                 if d.get("type") == "CallExpression":
                     continue     # a table handed over by generated code (own properties for every defined name)
+                # the dictionary may be reached through a local of the method (b103: `const { collectedDefinitions } =
+                # this; return name in collectedDefinitions;`, likewise `const d = this.collectedDefinitions`): it is
+                # the field the local was taken from - a local bound once and never assigned
+                if d.get("type") == "Identifier" and d["value"] not in ps:
+                    ln = d["value"]
+                    binds = [v_ for v_ in walk(fn) if v_["type"] == "VariableDeclarator" and any(b_["type"] == "Identifier" and b_["value"] == ln for b_ in walk(v_["id"]))]
+                    assigned = any(a_["type"] == "AssignmentExpression" and s(a_["left"]) == ln for a_ in walk(fn))
+                    if len(binds) == 1 and not assigned and binds[0].get("init") is not None:
+                        v_, vi = binds[0], unparen(binds[0]["init"])
+                        if v_["id"].get("type") == "Identifier" and vi.get("type") == "MemberExpression" and vi["object"]["type"] == "ThisExpression" and vi["property"]["type"] == "Identifier":
+                            d = vi
+                        elif v_["id"].get("type") == "ObjectPattern" and vi.get("type") == "ThisExpression":
+                            for pp in v_["id"]["properties"]:
+                                k_ = pp.get("key") or {}
+                                if k_.get("type") != "Identifier":
+                                    continue
+                                if (pp["type"] == "AssignmentPatternProperty" and k_["value"] == ln and pp.get("value") is None) or \
+                                        (pp["type"] == "KeyValuePatternProperty" and unparen(pp["value"]).get("type") == "Identifier" and unparen(pp["value"])["value"] == ln):
+                                    d = {"type": "MemberExpression", "span": vi.get("span"), "object": vi, "property": k_}
                 dicts.setdefault(s(d), mod.loc(n))
     # 2. every creation site of those dictionaries
     n_sites = 0
@@ -451,8 +470,12 @@ def run(cx, rep):
             recs = [d_["id"]["value"] for d_ in walk(fn_) if d_["type"] == "VariableDeclarator" and d_["id"].get("type") == "Identifier" and d_.get("init") is not None
                     and unparen(d_["init"]).get("type") == "NewExpression" and s(unparen(d_["init"])["callee"]) in ("Map", "Set")]
             used = []
+            # the record may be read and written in a helper that is handed the record (b103: the loop body's counter
+            # moved into `nextRepeatSuffix(partCounts, key)`): walk_inl shows the helper's body with the record's name
+            # substituted for the parameter
+            inl = list(tsast.walk_inl(mod, cn, fn_, depth=3))
             for r_ in recs:
-                ops = {method_call(x)[1] for x in walk(fn_) if x["type"] == "CallExpression" and method_call(x) and s(method_call(x)[0]) == r_}
+                ops = {method_call(x)[1] for x in inl if x["type"] == "CallExpression" and method_call(x) and s(method_call(x)[0]) == r_}
                 if ops & {"get", "has"} and ops & {"set", "add"}:
                     used.append(r_)
             rep.ob("C02.10", "%s.%s/collision-record" % (cn, mn), bool(used),
@@ -471,12 +494,36 @@ def run(cx, rep):
             mc = method_call(n) if n["type"] == "CallExpression" else None
             if not mc or mc[1] not in ("replace", "replaceAll") or len(mc[2]) != 2:
                 continue
-            r = unparen(mc[2][1])
+            r = r_shown = unparen(mc[2][1])
             n_rep += 1
-            literal = r.get("type") == "StringLiteral" or (r.get("type") == "TemplateLiteral" and not r.get("expressions"))
+            # a replacement handed over BY NAME is judged by what the name is bound to (b103: `const replacer = () =>
+            # name; .. .replace(PLACEHOLDER, replacer)`): a `const` of this function or of the module, declared once
+            # and never assigned, or a function declaration; anything else stays a computed value
+            if r.get("type") == "Identifier":
+                rn = r["value"]
+                binds = [d_ for vd in walk(fn) if vd["type"] == "VariableDeclaration" for d_ in vd["declarations"]
+                         if any(b_["type"] == "Identifier" and b_["value"] == rn for b_ in walk(d_["id"]))]
+                shadow = rn in ts_common.fn_params(fn) or any(
+                    b_["type"] == "Identifier" and b_["value"] == rn for f_ in walk(fn["body"]) if f_["type"] in ("ArrowFunctionExpression", "FunctionExpression", "FunctionDeclaration", "CatchClause")
+                    for p_ in (f_.get("params") or ([f_["param"]] if f_.get("param") else [])) for b_ in walk(p_))
+                assigned = any((a_["type"] == "AssignmentExpression" and s(a_["left"]) == rn) or (a_["type"] == "UpdateExpression" and s(a_["argument"]) == rn) for a_ in walk(fn))
+                local_fns = [f_ for f_ in walk(fn["body"]) if f_["type"] == "FunctionDeclaration" and f_["identifier"]["value"] == rn]
+                if shadow or assigned:
+                    pass
+                elif len(binds) == 1 and not local_fns and binds[0]["id"].get("type") == "Identifier" and binds[0].get("init") is not None and \
+                        any(vd["kind"] == "const" and binds[0] in vd["declarations"] for vd in walk(fn) if vd["type"] == "VariableDeclaration"):
+                    r = unparen(binds[0]["init"])
+                elif not binds and len(local_fns) == 1:
+                    r = {"type": "FunctionExpression"}
+                elif not binds and not local_fns:
+                    if rn in mod.functions:
+                        r = {"type": "FunctionExpression"}
+                    elif rn in mod.vars and mod.vars[rn][0] == "const" and mod.vars[rn][1] is not None:
+                        r = unparen(mod.vars[rn][1])
+            literal =r.get("type") == "StringLiteral" or (r.get("type") == "TemplateLiteral" and not r.get("expressions"))
             fnrep = r.get("type") in ("ArrowFunctionExpression", "FunctionExpression")
             rep.ob("C02.9", "%s/replace" % label, literal or fnrep,
-                   "%s passes the computed string `%s` as the replacement of String.replace: `$$` / `$&` inside it are interpreted, so a name containing `$` comes out changed" % (label, s(r)[:40]),
+                   "%s passes the computed string `%s` as the replacement of String.replace: `$$` / `$&` inside it are interpreted, so a name containing `$` comes out changed" % (label, s(r_shown)[:40]),
                    mod.loc(n), sample={"fn": label, "replacement": "literal" if literal else "function"})
     rep.floor("C02.9", "String.replace calls in the runtime", n_rep, 2)
     # ---------------------------------------------------------------- C02.8
